@@ -135,6 +135,18 @@
 	#define FFSM2_ASSERT_OR(y, n)											   n
 #endif
 
+#ifdef FFSM2_VERIF
+	// verification hook (off unless FFSM2_VERIF is defined): an index outside a fixed-size container is reported
+	// to a handler supplied by the verification harness, which sanitizers cannot see inside an object
+	extern "C" void ffsm2VerifOutOfBounds(const char* where, unsigned long index, unsigned long bound) noexcept;
+
+	#define FFSM2_VERIF_INDEX(i, n)													\
+		(static_cast<unsigned long>(i) < static_cast<unsigned long>(n) ? (void) 0 :	\
+		 ffsm2VerifOutOfBounds(__func__, static_cast<unsigned long>(i), static_cast<unsigned long>(n)))
+#else
+	#define FFSM2_VERIF_INDEX(i, n)										  ((void) 0)
+#endif
+
 #ifdef FFSM2_ENABLE_ALL
 	#define FFSM2_ENABLE_DEBUG_STATE_TYPE
 	#define FFSM2_ENABLE_PLANS
@@ -784,6 +796,7 @@ BitWriteStreamT<NBitCapacity>::write(const UBitWidth<NBitWidth> item) noexcept {
 	static_assert(BIT_WIDTH > 0, "STATIC ASSERT");
 
 	FFSM2_ASSERT(_cursor + BIT_WIDTH <= BIT_CAPACITY);
+	FFSM2_VERIF_INDEX(_cursor + BIT_WIDTH, BIT_CAPACITY + 1);
 
 	using Item = UBitWidth<BIT_WIDTH>;
 
@@ -814,6 +827,7 @@ BitReadStreamT<NBitCapacity>::read() noexcept {
 	static_assert(BIT_WIDTH > 0, "STATIC ASSERT");
 
 	FFSM2_ASSERT(_cursor + BIT_WIDTH <= BIT_CAPACITY);
+	FFSM2_VERIF_INDEX(_cursor + BIT_WIDTH, BIT_CAPACITY + 1);
 
 	using Item = UBitWidth<BIT_WIDTH>;
 
@@ -1117,6 +1131,7 @@ FFSM2_CONSTEXPR(14)
 T&
 StaticArrayT<T, NC_>::operator[] (const N index) noexcept	{
 	FFSM2_ASSERT(0 <= index && index < CAPACITY);
+	FFSM2_VERIF_INDEX(index, CAPACITY);
 
 	return _items[static_cast<Index>(index)];
 }
@@ -1127,6 +1142,7 @@ FFSM2_CONSTEXPR(14)
 const T&
 StaticArrayT<T, NC_>::operator[] (const N index) const noexcept	{
 	FFSM2_ASSERT(0 <= index && index < CAPACITY);
+	FFSM2_VERIF_INDEX(index, CAPACITY);
 
 	return _items[static_cast<Index>(index)];
 }
@@ -1180,6 +1196,7 @@ FFSM2_CONSTEXPR(14)
 typename DynamicArrayT<T, NC_>::Item&
 DynamicArrayT<T, NC_>::operator[] (const N index) noexcept {
 	FFSM2_ASSERT(0 <= index && index < _count);
+	FFSM2_VERIF_INDEX(index, _count);
 
 	return _items[static_cast<Index>(index)];
 }
@@ -1190,6 +1207,7 @@ FFSM2_CONSTEXPR(14)
 const typename DynamicArrayT<T, NC_>::Item&
 DynamicArrayT<T, NC_>::operator[] (const N index) const noexcept {
 	FFSM2_ASSERT(0 <= index && index < _count);
+	FFSM2_VERIF_INDEX(index, _count);
 
 	return _items[static_cast<Index>(index)];
 }
@@ -1324,6 +1342,7 @@ FFSM2_CONSTEXPR(14)
 bool
 BitArrayT<NC_>::get(const TIndex index) const noexcept {
 	FFSM2_ASSERT(index < CAPACITY);
+	FFSM2_VERIF_INDEX(index, CAPACITY);
 
 	const Index unit = static_cast<Index>(index) / 8;
 	const Index bit  = static_cast<Index>(index) % 8;
@@ -1338,6 +1357,7 @@ FFSM2_CONSTEXPR(14)
 void
 BitArrayT<NC_>::set(const TIndex index) noexcept {
 	FFSM2_ASSERT(index < CAPACITY);
+	FFSM2_VERIF_INDEX(index, CAPACITY);
 
 	const Index unit = static_cast<Index>(index) / 8;
 	const Index bit  = static_cast<Index>(index) % 8;
@@ -1352,6 +1372,7 @@ FFSM2_CONSTEXPR(14)
 void
 BitArrayT<NC_>::clear(const TIndex index) noexcept {
 	FFSM2_ASSERT(index < CAPACITY);
+	FFSM2_VERIF_INDEX(index, CAPACITY);
 
 	const Index unit = static_cast<Index>(index) / 8;
 	const Index bit  = static_cast<Index>(index) % 8;
@@ -1938,6 +1959,7 @@ FFSM2_CONSTEXPR(14)
 typename TaskListT<TP_, NC_>::Item&
 TaskListT<TP_, NC_>::operator[] (const Index i) noexcept {
 	FFSM2_IF_ASSERT(verifyStructure());
+	FFSM2_VERIF_INDEX(i, CAPACITY);
 
 	return _items[i];
 }
@@ -1947,6 +1969,7 @@ FFSM2_CONSTEXPR(11)
 const typename TaskListT<TP_, NC_>::Item&
 TaskListT<TP_, NC_>::operator[] (const Index i) const noexcept {
 	FFSM2_IF_ASSERT(verifyStructure());
+	FFSM2_VERIF_INDEX(i, CAPACITY);
 
 	return _items[i];
 }
@@ -8291,6 +8314,7 @@ InstanceT<G_<NFT_, EmptyContext, TV_, NSL_ FFSM2_IF_PLANS(, NTC_), TP_>, TA_>::I
 //#undef FFSM2_CHECKED
 #undef FFSM2_ASSERT
 #undef FFSM2_ASSERT_OR
+#undef FFSM2_VERIF_INDEX
 
 #undef FFSM2_IF_TYPEINDEX
 #undef FFSM2_TYPEINDEX_AVAILABLE
